@@ -187,6 +187,7 @@ def plan(prop, tier, seed):
         for _ in range(n(80, 1500)):
             s = S()
             G.append([("hs", scen.handshake_session(s, rotations=s % 4 == 0))])
+        fam(n(40, 600), scen.hs_stray_session, "hs-stray")
         if not q:
             # exhaustive fates for the first 6 handshake datagrams (4^6 = 4096 assignments), one seed
             import itertools
@@ -522,6 +523,16 @@ def main():
             for v in compare_twins(prop, [(n_, l_) for n_, l_, _ in rs], [r for _, _, r in rs]):
                 viol.append((rs[-1][0], rs[-1][1], v))
 
+    # ---- 4b: exhaustive searches on the compiled code for the properties about pure functions
+    direct = []
+    if not args.replay and prop in ("C13", "C19"):
+        tool, arg = ("c13search.py", "65536" if tier == "quick" else str(1 << 21)) if prop == "C13" else ("c19search.py", "60000" if tier == "quick" else "524288")
+        p_ = subprocess.run([sys.executable, os.path.join(HERE, tool), arg], stdout=subprocess.PIPE, stderr=subprocess.STDOUT, text=True)
+        line = [l for l in p_.stdout.splitlines() if l.startswith(("OK", "COUNTEREXAMPLE", "ERROR"))]
+        notes.append("%s %s: %s" % (tool, arg, line[0] if line else p_.stdout[-200:]))
+        if line and line[0].startswith("COUNTEREXAMPLE"):
+            direct.append((tool, arg, line[0]))
+
     # ---- 5: verdict
     known = load_known()
     k = 0
@@ -547,6 +558,10 @@ def main():
                 small = lines
         k += 1
         rp = write_replay(prop, seed, k, ["monitor verdict on the real code: %r" % v, "family: %s" % name, "re-run: python3 tools/check.py %s --replay <this file>" % prop], small)
+        reported.append("VIOLATION property=%s replay=%s" % (prop, rp))
+    for tool, arg, line in direct:
+        k += 1
+        rp = write_replay(prop, seed, k, ["exhaustive search on the compiled code of /repo: " + line, "re-run: python3 tools/%s %s" % (tool, arg)], [])
         reported.append("VIOLATION property=%s replay=%s" % (prop, rp))
     # (b) crashes: memory error / assertion / hang on the real code
     for name, lines, fl, ci in crashes[:3]:
@@ -596,7 +611,7 @@ def main():
             "evaluations": len(flat) * (3 if have_model else 2), "scenarios": len(flat), "distinct_nontrivial": nontrivial,
             "rule": "scenario = seeded op sequence (see tools/scen.py); distinct by SHA-1 of the op text; non-trivial when the real code produced more than 3 observable events (deliveries, verdicts, datagrams, accepts, hostile injections)",
             "samples": samples, "families": fam_count, "model_vs_code_disagreements": len(diffs), "monitor_violations": len(mine), "crashes": len(crashes),
-            "input_distribution": {kk: vv for kk, vv in stats_tot.items() if kk != "ret_codes"},
+            "input_distribution": {kk: vv for kk, vv in stats_tot.items() if kk != "ret_codes"}, "direct_searches": notes,
             "return_codes_hit": stats_tot.get("ret_codes", {}),
             "traces_validated_against_impl": len(flat) if have_model else 0,
         },
